@@ -252,3 +252,80 @@ Theorem C02_setter_deleter_keep_property :
   buffer s' = buffer s.
 Proof. exact setter_deleter_keep_property. Qed.
 Print Assumptions C02_setter_deleter_keep_property.
+
+(* A definition that re-binds the name whatever it was bound to (a property, an implementation without own-name
+   accessor decorator, a class/import) makes the rest of the body independent of what the name was before;
+   only pending overloads carry over. *)
+Theorem C02_redefinition_resets :
+  forall n its s1 s2,
+  tracks s1 = tracks s2 -> buf n s1 = buf n s2 -> rebinds_first n its = true ->
+  mem n (visit_items its s1) = mem n (visit_items its s2) /\
+  buf n (visit_items its s1) = buf n (visit_items its s2) /\
+  log_of n its (visit_log its s1) = log_of n its (visit_log its s2).
+Proof. exact redefinition_resets. Qed.
+Print Assumptions C02_redefinition_resets.
+
+(* if/else: the visitor walks both branches; when the first leaves no pending overloads of the name and the second
+   re-binds it first, the name ends exactly as the second branch alone leaves it (= what CPython runs). *)
+Theorem C02_branch_redefinition :
+  forall n pre post s,
+  buf n (visit_items pre s) = buf n s -> rebinds_first n post = true ->
+  mem n (visit_items (pre ++ post) s) = mem n (visit_items post s) /\
+  buf n (visit_items (pre ++ post) s) = buf n (visit_items post s) /\
+  log_of n post (visit_log post (visit_items pre s)) = log_of n post (visit_log post s).
+Proof. exact branch_redefinition. Qed.
+Print Assumptions C02_branch_redefinition.
+
+(* Agreement with CPython's execution of the same module/class body (namespace, typing's overload registry,
+   property objects), for every body CPython executes without error. *)
+Theorem C02_bodies_agree_with_cpython :
+  forall its c, cpy_exec its (mkC [] []) = Ok c ->
+  let s0 := mkScope true [] [] in
+  forall n, agrees n (visit_items its s0) c (attached n (combine its (visit_log its s0))).
+Proof. exact bodies_agree_with_cpython. Qed.
+Print Assumptions C02_bodies_agree_with_cpython.
+
+Theorem C02_overloads_eq_get_overloads :
+  forall its c n i ovs, cpy_exec its (mkC [] []) = Ok c ->
+  let s0 := mkScope true [] [] in
+  lookup n (ns c) = Some (CFunc i) ->
+  mem n (visit_items its s0) = Some (MFunc i ovs) ->
+  attached n (combine its (visit_log its s0)) = ovs -> buf n (visit_items its s0) = [] ->
+  reg n c = ovs.
+Proof. exact overloads_eq_get_overloads. Qed.
+Print Assumptions C02_overloads_eq_get_overloads.
+
+(* The regenerated decorator tables: a callable path plays at most one role. *)
+Theorem C02_classify_tables_disjoint :
+  forallb (fun p => negb (in_strings p property_paths)) overload_paths = true /\
+  forallb (fun p => match rsplit_dot p with
+                    | Some (_, last) => match lookup last accessor_names with Some _ => false | None => true end
+                    | None => true end) (overload_paths ++ property_paths) = true.
+Proof. exact classify_tables_disjoint. Qed.
+Print Assumptions C02_classify_tables_disjoint.
+
+(* The decision ladder regenerated from visitor.py is: property, then overload, then accessor of the current
+   property, else implementation (which takes and deletes the pending overloads of its name). *)
+Theorem C02_handle_function_ladder :
+  forall s f, handle_function s f =
+  if existsb is_property (fdecos f) then (set_member s (fname f) (MProp (fid f) None None), OProp)
+  else if existsb is_overload (fdecos f) then
+    if tracks s then
+      let old := match lookup (fname f) (buffer s) with Some l => l | None => [] end in
+      (mkScope (tracks s) (members s) (assign (fname f) (old ++ [fid f]) (buffer s)), OOverload)
+    else (s, ODropped)
+  else match base_property s (fname f) (fdecos f), lookup (fname f) (members s) with
+  | Some true, Some (MProp id _ d) => (set_member s (fname f) (MProp id (Some (fid f)) d), OSetter id)
+  | Some false, Some (MProp id st _) => (set_member s (fname f) (MProp id st (Some (fid f))), ODeleter id)
+  | _, _ =>
+      if tracks s then
+        match lookup (fname f) (buffer s) with
+        | Some (x :: l) =>
+            (mkScope (tracks s) (assign (fname f) (MFunc (fid f) (x :: l)) (members s)) (remove_key (fname f) (buffer s)),
+             OImpl (x :: l))
+        | _ => (set_member s (fname f) (MFunc (fid f) []), OImpl [])
+        end
+      else (set_member s (fname f) (MFunc (fid f) []), OImpl [])
+  end.
+Proof. exact handle_function_eq. Qed.
+Print Assumptions C02_handle_function_ladder.
